@@ -330,6 +330,12 @@ def tableTags (maxBitLen : Nat) (tags : List Nat) : List Nat :=
 def renderTable (maxBitLen : Nat) (tags : List Nat) : String :=
   s!"T[{",".intercalate ((tableTags maxBitLen tags).map (fun t => s!"{toHex t}:{2 ^ t}"))}]"
 
+/-- `NativeGadget::constrained_cells` (read through the hook `verif_constrained_cells`), sorted by
+cell: `region.offset.col<bound`. -/
+def renderBounds (bounds : List (Cell × Nat)) : String :=
+  let sorted := bounds.mergeSort (fun x y => keyLe x.1.key y.1.key)
+  s!"B[{" ".intercalate (sorted.map (fun (c, b) => s!"{c.render}<{toHex b}"))}]"
+
 def St.render (s : St F) : String :=
   " ".intercalate (([renderRegions toNat s.regions, renderCopies s.copies,
     renderTable s.maxBitLen s.tags]).filter (· ≠ ""))
